@@ -280,11 +280,14 @@ def explore(args):
         entered = "".join(world.proxy.log) if use_pyte else ""
         world.proxy.log = None
 
-        def rec(st, T, hist, step, written=entered):
+        def rec(st, T, hist, step, written=entered, last=None):
             check_exit(acc, world, st, T, hist0, dict(base, history=hist))
             if step >= depth:
                 return
-            for arr, cur in menu(h, w, step, npat):
+            options = list(menu(h, w, step, npat))
+            if last is not None:
+                options.append(last)  # the same array and cursor again, unchanged (idle redraw)
+            for arr, cur in options:
                 case = dict(base, history=hist, render=show_arr(arr), cursor=list(cur))
                 acc.case(T + len(arr) > h or step > 0, key=(h, w, keep, hide, str(desc), tuple(map(str, hist)), arr, cur), sample=case)
                 acc.transitions += 1
@@ -298,7 +301,7 @@ def explore(args):
                     continue
                 new, T2, written2 = res
                 acc.state(hash((h, w, keep, hide, str(desc), new[1].canon(), WH.canon_window(new[0]))))
-                rec(new, T2, hist + [[show_arr(arr), list(cur)]], step + 1, written2)
+                rec(new, T2, hist + [[show_arr(arr), list(cur)]], step + 1, written2, (arr, cur))
 
         rec(st0, T0, [], 0)
     world.close()
